@@ -443,6 +443,36 @@ pub fn fam_lit_ops(cfg: &FunCfg, sink: &mut FunSink) {
             });
         }
     }
+    // arithmetic while the *first* variable of the environment is a block pointer that is used
+    // afterwards (x86-64 borrows exactly that variable's registers for idiv)
+    for o in ["+", "-", "*", "/", "%"] {
+        for kind in ["list", "pair", "closure", "nil"] {
+            for order in ["ab", "ba", "aa"] {
+                sink.offer(move || {
+                    let (ty, val, use_) = match kind {
+                        "list" => ("List[i64]", "Cons(10, Cons(20, Nil))", "o.case[i64] { Nil => r, Cons(y, ys) => (y + r) + sum(ys) }"),
+                        "nil" => ("List[i64]", "Nil", "o.case[i64] { Nil => r, Cons(y, ys) => y + r }"),
+                        "pair" => ("Pair[i64, i64]", "Tup(30, 40)", "o.case[i64, i64] { Tup(y, z) => ((y * 2) + z) + r }"),
+                        _ => ("Fun[i64, i64]", "new { ap(q) => q + 1000 }", "o.ap[i64, i64](r)"),
+                    };
+                    let e = match order {
+                        "ab" => format!("a {o} b"),
+                        "ba" => format!("b {o} a"),
+                        _ => format!("a {o} a"),
+                    };
+                    let src = format!(
+                        "{PRELUDE_TYPES}{PRELUDE_DEFS}def f(o: {ty}, a: i64, b: i64): i64 {{ let r: i64 = {e}; {use_} }}\ndef main(n: i64, m: i64): i64 {{ println_i64(f({val}, n, m)); 0 }}\n"
+                    );
+                    FunCase {
+                        name: format!("ops/first_{kind}/{}/{order}", match o { "+" => "add", "-" => "sub", "*" => "mul", "/" => "div", _ => "rem" }),
+                        src,
+                        inputs: vec![vec![7, 3], vec![-7, 3], vec![17, -5], vec![i64::MAX, 2]],
+                        sequenced: true,
+                    }
+                });
+            }
+        }
+    }
     for c in cmps {
         for form in ["two", "zero_r", "zero_l", "lit_r", "nested"] {
             sink.offer(move || {
@@ -538,6 +568,19 @@ pub fn fam_data(_cfg: &FunCfg, sink: &mut FunSink) {
                 src.push_str(&main_def(&["n"], body).render());
                 FunCase { name: format!("data/quad/rot{rot}/ctor{which}"), src, inputs: vec![vec![2], vec![-4]], sequenced: true }
             });
+            // the same match with the constructor itself as scrutinee (a cut whose two sides are
+            // both known; the clause is selected at compile time)
+            let perm2 = perm.clone();
+            sink.offer(move || {
+                let clauses = ["Q0 => 10", "Q1(p) => p + 20", "Q2 => 30", "Q3(p, q) => p * q"];
+                let written: Vec<&str> = perm2.iter().map(|i| clauses[*i]).collect();
+                let value = ["Q0", "Q1(n)", "Q2", "Q3(n, 3)"][which];
+                let src = format!(
+                    "{PRELUDE_TYPES}data Quad {{ Q0, Q1(a: i64), Q2, Q3(a: i64, b: i64) }}\n{PRELUDE_DEFS}def main(n: i64): i64 {{ println_i64({value}.case {{ {} }}); 0 }}\n",
+                    written.join(", ")
+                );
+                FunCase { name: format!("data/quad_known/rot{rot}/ctor{which}"), src, inputs: vec![vec![2], vec![-4]], sequenced: true }
+            });
         }
     }
     // cocase clauses of a three-destructor type written in every order (6) x every destructor
@@ -552,6 +595,17 @@ pub fn fam_data(_cfg: &FunCfg, sink: &mut FunSink) {
                     written.join(", ")
                 );
                 FunCase { name: format!("data/cocase3/perm{pi}/m{which}"), src, inputs: vec![vec![2], vec![-4]], sequenced: true }
+            });
+            // the destructor applied to the cocase itself
+            sink.offer(move || {
+                let clauses = ["m0 => n + 1000", "m1(a) => (a * 10) + n", "m3(a, b, c) => ((a * 100) + (b * 10)) + (c + n)"];
+                let written: Vec<&str> = perm.iter().map(|i| clauses[*i]).collect();
+                let call = [".m0", ".m1(5)", ".m3(1, 2, 3)"][which];
+                let src = format!(
+                    "{PRELUDE_TYPES}codata Obj3 {{ m0: i64, m1(a: i64): i64, m3(a: i64, b: i64, c: i64): i64 }}\n{PRELUDE_DEFS}def main(n: i64): i64 {{ println_i64(new {{ {} }}{call}); 0 }}\n",
+                    written.join(", ")
+                );
+                FunCase { name: format!("data/cocase3_known/perm{pi}/m{which}"), src, inputs: vec![vec![2], vec![-4]], sequenced: true }
             });
         }
     }
